@@ -212,3 +212,15 @@ Fixpoint bits_of (n : nat) (x : Z) : bits :=
 Definition map_pairs {R} (f : bits -> bits -> result R) (n : nat) (ps : list (Z * Z))
   : result (list R) :=
   mapM (fun p => f (bits_of n (fst p)) (bits_of n (snd p))) ps.
+
+(* the eight operations on the same operand pairs: the six comparisons in the order of
+   [cmp_by_id], then Min and Max (one correspondence case = eight instantiated Rust graphs) *)
+Definition all_ops (sg : bool) (n : nat) (ps : list (Z * Z))
+  : list (result (list bool)) * list (result (list (nat * Z))) :=
+  (map (fun id => map_pairs (cmp_by_id id sg) n ps) [0; 1; 2; 3; 4; 5]%N,
+   [rmap (map enc) (map_pairs (min_op sg) n ps); rmap (map enc) (map_pairs (max_op sg) n ps)]).
+(* the same on one pair of bit strings of possibly different lengths (malformed stream) *)
+Definition all_ops_on (sg : bool) (a b : bits)
+  : list (result bool) * list (result (nat * Z)) :=
+  (map (fun id => cmp_by_id id sg a b) [0; 1; 2; 3; 4; 5]%N,
+   [rmap enc (min_op sg a b); rmap enc (max_op sg a b)]).
